@@ -313,7 +313,7 @@ func genConfig(t *rapid.T) *Case {
 	}
 }
 
-func genFlights(t *rapid.T, c *Case, max int) {
+func genFlights(t *rapid.T, c *Case, max int, enum bool) {
 	nf := rapid.SampledFrom([]int{0, 1, 1, 2, 2, 3, 3, 4}).Draw(t, "nflights")
 	if nf > max {
 		nf = max
@@ -322,17 +322,18 @@ func genFlights(t *rapid.T, c *Case, max int) {
 		c.Flights = append(c.Flights, genFlight(t))
 	}
 	c.Order = rapid.Permutation(seqInts(nf)).Draw(t, "order")
-	steer(t, c)
+	steer(t, c, enum)
 }
 
 // steer keeps the search going behind the listed findings: most cases that
 // would only re-observe a listed finding are moved next to it (counted).
-func steer(t *rapid.T, c *Case) {
+// In the enumerations (hundreds of cuts per drawn history) they always are.
+func steer(t *rapid.T, c *Case, enum bool) {
 	if len(c.Flights) == 0 {
 		return
 	}
-	if hx.IsKnown(FindRespondBlocks) && c.Maxpend == 0 && c.Sched != "respfirst" {
-		if rapid.IntRange(0, 7).Draw(t, "keepA") > 0 {
+	if hx.IsKnown(FindRespondBlocks) && c.Maxpend == 0 {
+		if enum || rapid.IntRange(0, 15).Draw(t, "keepA") > 0 {
 			c.Maxpend = 16
 			hx.Excluded(FindRespondBlocks)
 		}
@@ -344,7 +345,7 @@ func steer(t *rapid.T, c *Case) {
 				risky = true
 			}
 		}
-		if risky && rapid.IntRange(0, 7).Draw(t, "keepB") > 0 {
+		if risky && (enum || rapid.IntRange(0, 7).Draw(t, "keepB") > 0) {
 			for i := range c.Flights {
 				f := &c.Flights[i]
 				if !f.harmless() {
@@ -415,7 +416,7 @@ func TestPropDisconnect(t *testing.T) {
 		c := genConfig(t)
 		genHistory(t, c, 10)
 		c.Cut = drawCut(t, c.frames())
-		genFlights(t, c, 4)
+		genFlights(t, c, 4, false)
 		orders := [][]int{c.Order}
 		if n := len(c.Flights); n >= 2 && n <= 3 {
 			orders = perms(n)
@@ -434,10 +435,23 @@ func TestPropDisconnect(t *testing.T) {
 // byte stream (all frame boundaries and all mid-frame offsets), by EOF and by
 // error, with the drawn set of requests executing at that moment.
 func TestEnumPrefixes(t *testing.T) {
-	hx.Check(t, "prefixes", hx.N(3, 40), func(t *rapid.T) {
+	maxStream := 260
+	if hx.Thorough() {
+		maxStream = 420
+	}
+	hx.Check(t, "prefixes", hx.N(2, 30), func(t *rapid.T) {
 		c := genConfig(t)
 		genHistory(t, c, 6)
-		genFlights(t, c, 3)
+		// every offset is enumerated: keep the frames short
+		for i := range c.History {
+			if c.History[i].Kind == "write" && c.History[i].Count > 33 {
+				c.History[i].Count = 33
+			}
+		}
+		for streamLen(c.frames()) > maxStream && len(c.History) > 1 {
+			c.History = c.History[:len(c.History)-1]
+		}
+		genFlights(t, c, 3, true)
 		total := streamLen(c.frames())
 		for cut := 0; cut <= total; cut++ {
 			for _, kind := range []string{"eof", "err"} {
@@ -507,10 +521,10 @@ func TestEnumOrders(t *testing.T) {
 					if hx.NShards > 1 && idx%hx.NShards != hx.Shard {
 						continue
 					}
-					if !hx.Thorough() && idx%16 != int(hx.Seed%16) {
+					if !hx.Thorough() && (idx/hx.NShards)%4 != int(hx.Seed%4) {
 						continue
 					}
-					if hx.IsKnown(FindRespondBlocks) && mp == 0 && sc != "respfirst" && len(sel) > 0 && idx%8 != 0 {
+					if hx.IsKnown(FindRespondBlocks) && mp == 0 && len(sel) > 0 && idx%16 != 0 {
 						hx.Excluded(FindRespondBlocks)
 						continue
 					}
